@@ -92,6 +92,13 @@ def doc (cfg : Cfg) (s : St) : Op → Doc
   | .spSubspan off count =>
     ⟨[(SP.kSubOff, off ≤ s.size), (SP.kSubCnt, count = SP.dyn ∨ off + count ≤ s.size)], fun _ =>
      if count = SP.dyn then s.elems.drop off else (s.elems.drop off).take count, fun _ => s⟩
+  | .spFirstT n => ⟨[(SP.kFirstT, n ≤ s.size)], fun _ => s.elems.take n, fun _ => s⟩
+  | .spLastT n => ⟨[(SP.kLastT, n ≤ s.size)], fun _ => s.elems.drop (s.size - n), fun _ => s⟩
+  | .spSubspanT off count =>
+    ⟨[(SP.kSubOffT, off ≤ s.size), (SP.kSubCntT, count = SP.dyn ∨ off + count ≤ s.size)], fun _ =>
+     if count = SP.dyn then s.elems.drop off else (s.elems.drop off).take count, fun _ => s⟩
+  -- [span.cons]: a span of static extent is constructed over exactly `extent` elements
+  | .spCtorExt k ext => ⟨[(SP.kCtorExt k, ext = SP.dyn ∨ s.size = ext)], fun _ => s.elems, fun _ => s⟩
   | .arAt k i => ⟨if s.size = 0 then [(AR.kAtZ k, false)] else if cfg.safe then [(AR.kAt k, i < s.size)] else [],
       fun _ => elemAt s.elems i, fun _ => s⟩
   | .arFront k => ⟨[(AR.kFront k, s.size ≠ 0)], fun _ => elemAt s.elems 0, fun _ => s⟩
@@ -131,9 +138,11 @@ def doc (cfg : Cfg) (s : St) : Op → Doc
   | .bs which pos v => ⟨[(bsKey which, pos < s.size)], fun _ => bsResult s which pos, fun _ => bsPost s which pos v⟩
   | .bsCtor pos n bits => ⟨[(BS.kCtor, pos ≤ s.size)], fun _ => ((s.elems.drop pos).take n).take bits, fun _ => s⟩
   | .bit which w pos => ⟨[(SC.kBit (SC.bitFns.getD which "test_bit") (if which == 3 then 1 else 0), pos < w)], fun _ => [], fun _ => s⟩
-  | .divSat y => ⟨[(SC.kDiv, y ≠ 0)], fun _ => [], fun _ => s⟩
-  | .dayCtor d => ⟨[(SC.kDay, d < 255)], fun _ => [], fun _ => withElems s [(d : Int)]⟩
-  | .monthCtor m => ⟨[(SC.kMonth, m < 255)], fun _ => [], fun _ => withElems s [(m : Int)]⟩
+  -- [numeric.sat]: `y != 0`; the mathematical quotient (truncated), saturated to the range of `int`
+  | .divSat x y => ⟨[(SC.kDiv, y ≠ 0)], fun _ => [max SC.I32min (min SC.I32max (Int.tdiv x y))], fun _ => s⟩
+  -- day.hpp / month.hpp: "may hold any number in [0, 255]" ([time.cal.day] / [time.cal.month]: the value is unspecified beyond)
+  | .dayCtor d => ⟨[(SC.kDay, d ≤ 255)], fun _ => [], fun _ => withElems s [(d : Int)]⟩
+  | .monthCtor m => ⟨[(SC.kMonth, m ≤ 255)], fun _ => [], fun _ => withElems s [(m : Int)]⟩
   | .stride l r => ⟨[(SC.kStride l, r < s.size)], fun _ => elemAt s.elems r, fun _ => s⟩
   | .nullChecks ks => ⟨ks, fun _ => [], fun _ => s⟩
   | .setCtor n o => ⟨[(SC.kSetOrd, o), (SC.kSetFit, n ≤ s.cap)], fun _ => [], fun _ => s⟩
